@@ -168,3 +168,25 @@ MUTANTS.update({
     ('timesorted-lag-uses-newest', [(C, "metric_lw = [x for x in metric_lw if t - x[1] > settings.MIN_TIMESTAMP_LAG]", "metric_lw = [x for x in metric_lw if t - x[2] > settings.MIN_TIMESTAMP_LAG]")]),
   ],
 })
+
+MUTANTS.update({
+  'C03': [
+    ('committed-before-write', [(W, "      datapoints = dict(datapoints).items()\n      state.database.write(metric, datapoints)", "      datapoints = dict(datapoints).items()\n      instrumentation.increment('committedPoints', len(datapoints))\n      state.database.write(metric, datapoints)"),
+                                (W, "      pointCount = len(datapoints)\n      instrumentation.increment('committedPoints', pointCount)", "      pointCount = len(datapoints)")]),
+    ('no-exists-gate', [(W, "    if not state.database.exists(metric):\n      # If we get here", "    if False:\n      # If we get here")]),
+    ('swallow-write-error', [(W, "      log.msg(\"Error writing to %s: %s\" % (metric, e))\n      instrumentation.increment('errors')", "      pass")]),
+    ('dropped-not-counted', [(W, "      instrumentation.increment('droppedCreates')\n      continue", "      continue")]),
+    ('dropped-falls-through', [(W, "      instrumentation.increment('droppedCreates')\n      continue", "      instrumentation.increment('droppedCreates')")]),
+    ('stale-datapoints', [(W, "      datapoints = dict(datapoints).items()\n      state.database.write(metric, datapoints)", "      prev = globals().get('_prev') or datapoints\n      globals()['_prev'] = datapoints\n      datapoints = dict(prev).items()\n      state.database.write(metric, datapoints)")]),
+    ('write-twice-on-slow', [(W, "      state.database.write(metric, datapoints)\n      if settings.ENABLE_TAGS:", "      state.database.write(metric, datapoints)\n      if len(datapoints) == 3:\n        state.database.write(metric, datapoints)\n      if settings.ENABLE_TAGS:")]),
+    ('create-error-not-counted', [(W, "        log.msg(\"Error creating %s: %s\" % (metric, e))\n        instrumentation.increment('errors')\n        continue", "        log.msg(\"Error creating %s: %s\" % (metric, e))\n        continue")]),
+    ('pass-error-swallowed', [(W, "    try:\n      writeCachedDataPoints()\n    except Exception:\n      log.err()\n      # Back-off on error", "    try:\n      writeCachedDataPoints()\n    except Exception:\n      pass\n      # Back-off on error")]),
+  ],
+  'C04': [
+    ('no-final-pass', [(W, "  try:\n    writeCachedDataPoints()\n  except Exception:\n    log.err()\n\n\ndef writeTags", "  pass\n\n\ndef writeTags")]),
+    ('lag-not-zeroed', [(W, "    settings.MIN_TIMESTAMP_LAG = 0\n", "    pass\n")]),
+    ('break-mid-pass-on-stop', [(W, "    # now drain and persist some data\n    (metric, datapoints) = cache.drain_metric()", "    if not reactor.running and len(cache) > 1:\n      break\n    # now drain and persist some data\n    (metric, datapoints) = cache.drain_metric()")]),
+    ('final-pass-only-if-idle', [(W, "  try:\n    writeCachedDataPoints()\n  except Exception:\n    log.err()\n\n\ndef writeTags", "  try:\n    if len(MetricCache()) < 2:\n      writeCachedDataPoints()\n  except Exception:\n    log.err()\n\n\ndef writeTags")]),
+    ('shutdown-speed-zero', [(W, "          UPDATE_BUCKET.setCapacityAndFillRate(shut, shut)", "          UPDATE_BUCKET.setCapacityAndFillRate(shut, shut)\n          raise KeyError('x')")]),
+  ],
+})
